@@ -65,7 +65,7 @@ for v, nm in (("vsct", "Vsct"), ("vst", "Vst")):
     try:
         wj, f = wit("C16", v, mode="s", fam=["three_decades_f32"])
         known("K4-C16-%s-f32" % v, "C16", "%s in f32 drifts beyond 1e-2 of its scale within 10^3 steps when the window's spread is small against the value magnitude (WelfordOnline's incrementally updated m2 is never refreshed): %s" % (nm, f["explanation"][:140]), wj,
-              dict(kind="fptrack", view=v, fam=["three_decades_f32"], mode="s", top_only=True))
+              dict(kind="fptrack", view=v, fam=["three_decades_f32", "three_decades_f32_long"], mode="s", top_only=True))
     except SystemExit as ex:
         print(ex)
 try:
